@@ -201,7 +201,9 @@ Definition assert_sub (a : sty) (ids : list Z) (t : sty) : bool :=
 (* the result of a call is allowed by [t] *)
 Definition call_out_ok (d : fdesc) (args : list pexpr) (t : sty) : bool :=
   (if fd_strict d && existsb (fun a => allows_null (ptype a)) args then has_kind K_NULL t else true) &&
-  match body_result_kinds (body_of d) with
+  (* fewer arguments than the body reads: it panics, nothing comes out *)
+  (Nat.ltb (length args) (body_min_args (body_of no_oracle d)) ||
+  match body_result_kinds (body_of no_oracle d) with
   | Some ks => kinds_in ks t
   | None => match args with
             | a :: _ => match ptype a with
@@ -210,7 +212,7 @@ Definition call_out_ok (d : fdesc) (args : list pexpr) (t : sty) : bool :=
                         end
             | [] => true      (* the body panics on an empty argument list *)
             end
-  end.
+  end).
 
 Fixpoint pwt (env : list sty) (e : pexpr) {struct e} : bool :=
   match e with
@@ -224,7 +226,9 @@ Fixpoint pwt (env : list sty) (e : pexpr) {struct e} : bool :=
       (has_kind K_NULL t || existsb (fun a => negb (allows_null (ptype a))) args)
   | PAssert t target a => pwt env a && assert_sub (ptype a) (expected_ids target) t
   | PCast t id a => pwt env a && has_kind K_NULL t && has_kind id t
-  | PCall t d args => forallb (pwt env) args && desc_modelled d && call_out_ok d args t
+  (* a descriptor whose body is not modelled has no result kinds: the model's evaluation of such a call is
+     Err E_NOT_MODELLED, never a value, so nothing is claimed about it *)
+  | PCall t d args => forallb (pwt env) args && call_out_ok d args t
   end.
 
 (* frame 0 holds values allowed by the column types *)
@@ -240,11 +244,14 @@ Definition ctx_conforms (ctx : vctx) (env : list sty) : bool :=
 (* one obligation per row of the generated table: the kinds the modelled body can return are allowed by the
    declared OutputType (for the identity bodies: the declared argument type is) *)
 Definition row_output_ok (d : fdesc) : bool :=
-  match body_result_kinds (body_of d) with
+  match body_result_kinds (body_of no_oracle d) with
   | Some ks => kinds_in ks (fd_out d)
   | None => match fd_args d with [a] => sty_sub a (fd_out d) | _ => false end
   end.
-Definition desc_claimed (d : fdesc) : bool := desc_modelled d.   (* the rest is "not modelled": never claimed *)
+Definition desc_claimed (d : fdesc) : bool := desc_modelled d.
+(* the obligations of a table row that the typechecker theorem uses: the output obligation, and that the
+   declared argument types are Any or non-empty sets of scalar TypeIDs (what the translator writes) *)
+Definition row_ok2 (d : fdesc) : bool := row_output_ok d && forallb sty_scalar (fd_args d).   (* the rest is "not modelled": never claimed *)
 
 (* ---- structural equality of physical expressions (types as sets, descriptors by name and position) ---- *)
 Definition desc_same (a b : fdesc) : bool := String.eqb (fd_name a) (fd_name b) && (fd_idx a =? fd_idx b).
